@@ -47,7 +47,7 @@ def run_check(pid, tier, seed, replay=None):
     except translate.TieBroken as e:
         regen_err = str(e)
     # ---- 1. proofs (re-checked against the regenerated fragments)
-    pr = proof_step(pid)
+    pr = proof_step(pid, tier)
     if regen_err:
         pr["errors"].append("source translator: " + regen_err)
     proof_broken = bool(pr["errors"]) or pr["discharged"] != pr["obligations"]
